@@ -91,8 +91,11 @@ fn constructors(o: &mut Outcome, seed: u64, random: bool) {
                 continue;
             }
             o.events += 1;
-            let mb = za::MerchantBalance::try_new(v).unwrap();
-            let cb = za::CustomerBalance::try_new(w).unwrap();
+            // (a refusal of an in-range value has been reported above)
+            let (mb, cb) = match (za::MerchantBalance::try_new(v), za::CustomerBalance::try_new(w)) {
+                (Ok(a), Ok(b)) => (a, b),
+                _ => continue,
+            };
             let ideal = v as i128 + w as i128;
             match mb.try_add(cb) {
                 Ok(r) => {
@@ -122,8 +125,13 @@ fn start_lattice(o: &mut Outcome, seed: u64, c: u64, mval: u64, amounts: &[i64])
     let mut rng = SimRng::new(seed, "c17/start-lattice");
     let cid = za::ChannelId::new(za::MerchantRandomness::new(&mut rng), za::CustomerRandomness::new(&mut rng), m.cfg.signing_keypair().public_key(), b"m", b"c");
     let ctx = za::Context::new(b"c17-establish");
-    let cb = za::CustomerBalance::try_new(c).unwrap();
-    let mb = za::MerchantBalance::try_new(mval).unwrap();
+    let (cb, mb) = match (za::CustomerBalance::try_new(c), za::MerchantBalance::try_new(mval)) {
+        (Ok(a), Ok(b)) => (a, b),
+        _ => {
+            o.violate("balance-constructor-wrong", "try_new", format!("an in-range balance of ({}, {}) is refused by its constructor", c, mval));
+            return;
+        }
+    };
     let (req, proof) = za::customer::Requested::new(&mut rng, &m.ccfg, cid, mb, cb, &ctx);
     let (cs, vbs) = match m.cfg.initialize(&mut rng, &cid, cb, mb, proof, &ctx) {
         Some(x) => x,
@@ -253,8 +261,13 @@ fn wire_extreme(o: &mut Outcome, seed: u64) {
         (i64::MAX as u64, 0, i64::MAX, vec![i64::MIN, i64::MAX - 1, -i64::MAX]),
     ];
     let (c0, m0, amount, wrong) = variants[(seed % 2) as usize].clone();
-    let cb = za::CustomerBalance::try_new(c0).unwrap();
-    let mb = za::MerchantBalance::try_new(m0).unwrap();
+    let (cb, mb) = match (za::CustomerBalance::try_new(c0), za::MerchantBalance::try_new(m0)) {
+        (Ok(a), Ok(b)) => (a, b),
+        _ => {
+            o.violate("balance-constructor-wrong", "try_new", format!("an in-range balance of ({}, {}) is refused by its constructor", c0, m0));
+            return;
+        }
+    };
     let (req, proof) = za::customer::Requested::new(&mut rng, &m.ccfg, cid, mb, cb, &ctx);
     let (cs, vbs) = m.cfg.initialize(&mut rng, &cid, cb, mb, proof, &ctx).unwrap_or_else(|| crate::harness_error("C17: honest establish refused (see C04)"));
     let ready = req
@@ -262,7 +275,13 @@ fn wire_extreme(o: &mut Outcome, seed: u64) {
         .ok()
         .and_then(|i| i.activate(m.cfg.activate(&mut rng, vbs), &m.ccfg).ok())
         .unwrap_or_else(|| crate::harness_error("C17: honest establish replies refused (see C04)"));
-    let amt = if amount >= 0 { za::PaymentAmount::pay_merchant(amount as u64) } else { za::PaymentAmount::pay_customer((-amount) as u64) }.unwrap();
+    let amt = match if amount >= 0 { za::PaymentAmount::pay_merchant(amount as u64) } else { za::PaymentAmount::pay_customer((-amount) as u64) } {
+        Ok(a) => a,
+        Err(e) => {
+            o.violate("amount-constructor-wrong", "PaymentAmount", format!("amount of magnitude {} refused: {:?}", amount.unsigned_abs(), e));
+            return;
+        }
+    };
     let pctx = b"c17-extreme-pay".to_vec();
     let (_st, sm) = match ready.start(&mut rng, amt, &za::Context::new(&pctx), &m.ccfg) {
         Ok(x) => x,
@@ -294,7 +313,8 @@ fn wire_extreme(o: &mut Outcome, seed: u64) {
     }
 }
 
-const C17_WORLD: [&str; 14] = [
+const C17_WORLD: [&str; 15] = [
+    "balance-constructor-wrong",
     "try-add-wrong",
     "amount-constructor-accepts-2^63",
     "amount-constructor-wrong",
